@@ -12,11 +12,11 @@ package main
 import (
 	"context"
 	"fmt"
-	"sort"
 	"os"
 	"os/exec"
 	"path/filepath"
 	"regexp"
+	"sort"
 	"strconv"
 	"strings"
 	"time"
@@ -1196,6 +1196,285 @@ func TestVerifReplay(t *testing.T) {
 				}
 			}
 		}
+	}
+}
+`
+
+// ---------------------------------------------------------------------------
+// Witness search at tree level. Like witnessSearchNode it decides nothing: it runs after a
+// tree-level obligation has been refuted and only tries to attach a concrete failing history.
+// An injected in-package test drives the real tree of the kind the obligation is about through
+// seeded pseudo-random histories over a small key universe next to a reference map and compares
+// every observable (Search, Size, All/Backward, Minimum/Maximum, Range, Prefix, TopK/BottomK,
+// early stop, re-iteration). Each mismatch has a class; the violation of property P counts as
+// confirmed only if the first mismatch is of a class that P speaks about.
+var witnessClasses = map[string][]string{
+	"C01": {"search", "delete", "panic"},
+	"C02": {"iter"},
+	"C03": {"range", "panic"},
+	"C04": {"prefix", "panic"},
+	"C05": {"minmax", "topk", "panic"},
+	"C06": {"size"},
+	"C14": {"earlystop", "reiter", "panic"},
+}
+
+func treeKindOf(fn string) string {
+	for _, k := range []string{"alpha", "unsigned", "signed", "float", "collation"} {
+		if strings.Contains(fn, k+"SortedTree") || strings.HasSuffix(fn, "@"+k) {
+			return k
+		}
+	}
+	return ""
+}
+
+func witnessSearchTree(prop string, o *Obligation) map[string]any {
+	classes := witnessClasses[prop]
+	if len(classes) == 0 || nodeFnRe.MatchString(o.Func) {
+		return nil
+	}
+	kind := treeKindOf(o.Func)
+	if strings.Contains(o.Func, "compound") {
+		return nil
+	}
+	seed := int64(1)
+	if v, err := strconv.ParseInt(os.Getenv("VERIF_SEED"), 10, 64); err == nil {
+		seed = v
+	}
+	src := fmt.Sprintf(treeWitnessTemplate, kind, seed)
+	rr := runReplayTest(src, o.Name)
+	out, _ := rr["output"].(string)
+	rr["how"] = fmt.Sprintf("witness search (bounded, seed %d): pseudo-random histories over a small key universe on the real tree next to a reference map; every observable compared. The solver gave no replayable model for this obligation", seed)
+	if c, _ := rr["confirmed"].(bool); c {
+		cls := ""
+		if m := regexp.MustCompile(`MISMATCH\[([a-z]+)\]`).FindStringSubmatch(out); m != nil {
+			cls = m[1]
+		} else if strings.Contains(out, "panic:") {
+			cls = "panic"
+		}
+		rr["mismatch_class"] = cls
+		ok := false
+		for _, c := range classes {
+			if c == cls {
+				ok = true
+			}
+		}
+		if !ok {
+			rr["confirmed"] = false
+			rr["note"] = "the real code misbehaves on this history, but in an observable this property does not speak about; not counted as a failing input of this property"
+		}
+	}
+	return rr
+}
+
+const treeWitnessTemplate = `package art
+
+import (
+	"fmt"
+	"math/rand"
+	"sort"
+	"strings"
+	"testing"
+)
+
+type vwKind[K any] struct {
+	name   string
+	mk     func() Tree[K, int]
+	less   func(a, b K) bool
+	gen    func(r *rand.Rand) K
+	prefix func(k, p K) bool // nil: Prefix not defined for this kind
+	cut    func(k K, r *rand.Rand) K
+}
+
+func vwRun[K any](t *testing.T, kd vwKind[K], seed int64) {
+	rng := rand.New(rand.NewSource(seed))
+	for h := 0; h < 150; h++ {
+		tr := kd.mk()
+		var keys []K
+		for len(keys) < 6+rng.Intn(60) {
+			keys = append(keys, kd.gen(rng))
+		}
+		ref := map[string]int{}
+		orig := map[string]K{}
+		id := func(k K) string { return fmt.Sprintf("%%#v", k) }
+		var hist []string
+		fail := func(class, format string, a ...any) {
+			t.Fatalf("MISMATCH[%%s] %%s tree, after history %%s: %%s", class, kd.name, strings.Join(hist, "; "), fmt.Sprintf(format, a...))
+		}
+		sorted := func() []K {
+			var ks []K
+			for s := range ref {
+				ks = append(ks, orig[s])
+			}
+			sort.Slice(ks, func(i, j int) bool { return kd.less(ks[i], ks[j]) })
+			return ks
+		}
+		collect := func(seq func(func(K, int) bool)) (ks []K, vs []int) {
+			seq(func(k K, v int) bool { ks = append(ks, k); vs = append(vs, v); return true })
+			return
+		}
+		same := func(class, what string, got []K, gotV []int, want []K) {
+			if len(got) != len(want) {
+				fail(class, "%%s yields %%d pairs %%v, expected %%d %%v", what, len(got), got, len(want), want)
+			}
+			for i := range want {
+				if id(got[i]) != id(want[i]) || gotV[i] != ref[id(want[i])] {
+					fail(class, "%%s: element %%d is (%%v,%%d), expected (%%v,%%d); got %%v want %%v", what, i, got[i], gotV[i], want[i], ref[id(want[i])], got, want)
+				}
+			}
+		}
+		nops := 20 + rng.Intn(120)
+		for op := 0; op < nops; op++ {
+			k := keys[rng.Intn(len(keys))]
+			switch rng.Intn(10) {
+			case 0, 1, 2, 3, 4:
+				v := rng.Intn(1000)
+				hist = append(hist, fmt.Sprintf("Insert(%%v,%%d)", k, v))
+				tr.Insert(k, v)
+				ref[id(k)], orig[id(k)] = v, k
+			case 5, 6, 7:
+				hist = append(hist, fmt.Sprintf("Delete(%%v)", k))
+				_, want := ref[id(k)]
+				if got := tr.Delete(k); got != want {
+					fail("delete", "Delete(%%v) = %%v, expected %%v", k, got, want)
+				}
+				delete(ref, id(k))
+			default:
+				hist = append(hist, fmt.Sprintf("Search(%%v)", k))
+			}
+			if tr.Size() != len(ref) {
+				fail("size", "Size() = %%d with %%d keys stored", tr.Size(), len(ref))
+			}
+			for i := 0; i < 3; i++ {
+				q := keys[rng.Intn(len(keys))]
+				if i == 0 {
+					q = k
+				}
+				want, present := ref[id(q)]
+				if got, ok := tr.Search(q); ok != present || (ok && got != want) {
+					fail("search", "Search(%%v) = (%%d,%%v), expected (%%d,%%v)", q, got, ok, want, present)
+				}
+			}
+			if op%%6 != 5 {
+				continue
+			}
+			want := sorted()
+			ks, vs := collect(tr.All())
+			same("iter", "All()", ks, vs, want)
+			rev := make([]K, len(want))
+			for i := range want {
+				rev[len(want)-1-i] = want[i]
+			}
+			ks, vs = collect(tr.Backward())
+			same("iter", "Backward()", ks, vs, rev)
+			if mk, mv, ok := tr.Minimum(); ok != (len(want) > 0) || (ok && (id(mk) != id(want[0]) || mv != ref[id(want[0])])) {
+				fail("minmax", "Minimum() = (%%v,%%d,%%v), sorted content %%v", mk, mv, ok, want)
+			}
+			if mk, mv, ok := tr.Maximum(); ok != (len(want) > 0) || (ok && (id(mk) != id(rev[0]) || mv != ref[id(rev[0])])) {
+				fail("minmax", "Maximum() = (%%v,%%d,%%v), sorted content %%v", mk, mv, ok, want)
+			}
+			for _, n := range []int{0, 1, rng.Intn(len(want) + 2), len(want) + 3} {
+				m := min(n, len(want))
+				ks, vs = collect(tr.BottomK(uint(n)))
+				same("topk", fmt.Sprintf("BottomK(%%d)", n), ks, vs, want[:m])
+				seq := tr.TopK(uint(n))
+				ks, vs = collect(seq)
+				same("topk", fmt.Sprintf("TopK(%%d)", n), ks, vs, rev[:m])
+				ks, vs = collect(seq)
+				same("reiter", fmt.Sprintf("second pass over TopK(%%d)", n), ks, vs, rev[:m])
+			}
+			// early stop: call the sequence function directly with a yield that says stop
+			for _, c := range []struct {
+				name string
+				seq  func(func(K, int) bool)
+				all  []K
+			}{{"All()", tr.All(), want}, {"Backward()", tr.Backward(), rev}, {"TopK(size)", tr.TopK(uint(len(want))), rev}, {"BottomK(size)", tr.BottomK(uint(len(want))), want}} {
+				if len(c.all) == 0 {
+					continue
+				}
+				stopAt, calls := rng.Intn(len(c.all)), 0
+				c.seq(func(K, int) bool { calls++; return calls <= stopAt })
+				if calls != stopAt+1 {
+					fail("earlystop", "%%s: yield returned false at call %%d but was called %%d times", c.name, stopAt+1, calls)
+				}
+				ks, vs = collect(c.seq)
+				same("reiter", "second pass over "+c.name, ks, vs, c.all)
+			}
+			a, b := keys[rng.Intn(len(keys))], keys[rng.Intn(len(keys))]
+			lo, hi := a, b
+			if kd.less(hi, lo) {
+				lo, hi = hi, lo
+			}
+			var inr []K
+			for _, x := range want {
+				if !kd.less(x, lo) && !kd.less(hi, x) {
+					inr = append(inr, x)
+				}
+			}
+			if kd.name != "collation" {
+				ks, vs = collect(tr.Range(a, b))
+				same("range", fmt.Sprintf("Range(%%v,%%v)", a, b), ks, vs, inr)
+			}
+			if kd.prefix != nil {
+				p := kd.cut(a, rng)
+				var wp []K
+				for _, x := range want {
+					if kd.prefix(x, p) {
+						wp = append(wp, x)
+					}
+				}
+				ks, vs = collect(tr.Prefix(p))
+				same("prefix", fmt.Sprintf("Prefix(%%v)", p), ks, vs, wp)
+			}
+		}
+	}
+}
+
+func vwWord(r *rand.Rand) string {
+	// small alphabet, bytes >= 0x80, shared prefixes longer than the inline limit, no 0x00 (known finding F8)
+	alpha := []byte{'a', 'b', 'c', 0x7f, 0x80, 0xff}
+	var b []byte
+	if r.Intn(3) == 0 {
+		b = append(b, "pppppppppppp"[:r.Intn(13)]...)
+	}
+	for n := 1 + r.Intn(5); n > 0; n-- {
+		b = append(b, alpha[r.Intn(len(alpha))])
+	}
+	return string(b)
+}
+
+func TestVerifReplay(t *testing.T) {
+	kind, seed := %q, int64(%d)
+	if kind == "" || kind == "alpha" {
+		vwRun(t, vwKind[string]{name: "alpha", mk: func() Tree[string, int] { return NewAlphaSortedTree[string, int]() },
+			less: func(a, b string) bool { return a < b }, gen: vwWord,
+			prefix: strings.HasPrefix, cut: func(k string, r *rand.Rand) string { return k[:r.Intn(len(k)+1)] }}, seed)
+	}
+	if kind == "" || kind == "unsigned" {
+		vwRun(t, vwKind[uint32]{name: "unsigned", mk: func() Tree[uint32, int] { return NewUnsignedBinaryTree[uint32, int]() },
+			less: func(a, b uint32) bool { return a < b },
+			gen:  func(r *rand.Rand) uint32 { return uint32(r.Intn(4))<<24 | uint32(r.Intn(3))<<8 | uint32(r.Intn(40)*7) }}, seed)
+	}
+	if kind == "" || kind == "signed" {
+		vwRun(t, vwKind[int32]{name: "signed", mk: func() Tree[int32, int] { return NewSignedBinaryTree[int32, int]() },
+			less: func(a, b int32) bool { return a < b },
+			gen:  func(r *rand.Rand) int32 { return int32(r.Intn(600)-300) * int32(1+r.Intn(2)*65535) }}, seed)
+	}
+	if kind == "" || kind == "float" {
+		vwRun(t, vwKind[float64]{name: "float", mk: func() Tree[float64, int] { return NewFloatBinaryTree[float64, int]() },
+			less: func(a, b float64) bool { return a < b },
+			gen:  func(r *rand.Rand) float64 { return float64(r.Intn(200)-100) / 4 * float64(1+r.Intn(2)*1000) }}, seed)
+	}
+	if kind == "" || kind == "collation" {
+		vwRun(t, vwKind[string]{name: "collation", mk: func() Tree[string, int] { return NewCollationSortedTree[string, int]() },
+			less: func(a, b string) bool { return a < b },
+			gen: func(r *rand.Rand) string {
+				b := make([]byte, 1+r.Intn(6))
+				for i := range b {
+					b[i] = "abcdxyz"[r.Intn(7)]
+				}
+				return string(b)
+			},
+			prefix: strings.HasPrefix, cut: func(k string, r *rand.Rand) string { return k[:r.Intn(len(k)+1)] }}, seed)
 	}
 }
 `
